@@ -23,6 +23,9 @@ except ImportError:
     raise
 
 sys.path.insert(0, os.path.dirname(os.path.abspath(__file__)))
+# the thorough tier unrolls the loops of the MIR functions once more (read when rqv.mirvc is imported)
+if "--tier" in sys.argv and sys.argv[sys.argv.index("--tier") + 1:][:1] == ["thorough"] or (os.environ.get("VERIF_TIER") == "thorough" and "--tier" not in sys.argv):
+    os.environ.setdefault("VERIF_MIR_UNROLL", "3")
 from rqv import runner  # noqa: E402
 
 
